@@ -21,6 +21,7 @@
       k = "from"    a-           (int-range without last-pos)
       k = "suffix"  -a           (suffix-range of a bytes)
       k = "empty"   empty list element (RFC 9110 5.6.1.2: must be ignored)
+      k = "space"   "a - b": white space inside the range-spec (see Norm below)
       any other k   is a token that does not match  range-spec  (see BadKinds)
 
    Freedom the property / RFC leaves, kept as nondeterminism:
@@ -39,7 +40,7 @@ EXTENDS Naturals, Integers, Sequences, FiniteSets
 VARIABLES cfg, resp
 vars == <<cfg, resp>>
 
-BadKinds == {"dash", "num", "alpha", "neg", "plus", "under", "space", "three"}
+BadKinds == {"dash", "num", "alpha", "neg", "plus", "under", "three"}
 Min(x, y) == IF x < y THEN x ELSE y
 Max(x, y) == IF x > y THEN x ELSE y
 
@@ -50,14 +51,19 @@ InitWith(c) == cfg = c /\ resp = [e |-> "init"]
 ValidSpec(s) == \/ s.k = "ab" /\ s.a <= s.b
                 \/ s.k = "from"
                 \/ s.k = "suffix"
-RealSpecs(h) == SelectSeq(h.specs, LAMBDA s : s.k # "empty")
+(* "a - b" (white space inside a range-spec) is not 1*DIGIT "-" 1*DIGIT in RFC 9110, but was legal
+   under RFC 2616's implied LWS and twisted documents accepting it: read as a-b or as malformed. *)
+Norm(s) == IF s.k = "space" THEN [k |-> "ab", a |-> s.a, b |-> s.b] ELSE s
+Specs(h) == [i \in DOMAIN h.specs |-> Norm(h.specs[i])]
+HasSpace(h) == \E i \in DOMAIN h.specs : h.specs[i].k = "space"
+RealSpecs(h) == SelectSeq(Specs(h), LAMBDA s : s.k # "empty")
 MalformedSet(h) == \/ RealSpecs(h) = <<>>                     \* range-set = 1#range-spec
-                   \/ \E i \in DOMAIN h.specs : h.specs[i].k # "empty" /\ ~ValidSpec(h.specs[i])
+                   \/ \E i \in DOMAIN h.specs : Specs(h)[i].k # "empty" /\ ~ValidSpec(Specs(h)[i])
 MustIgnore(h) == \/ ~h.present
                  \/ h.unit = "noeq"                           \* no "=": not a ranges-specifier
                  \/ h.unit = "other"                          \* unit not understood: MUST ignore
                  \/ (h.unit \in {"bytes", "Bytes"} /\ MalformedSet(h))
-MayIgnore(h)  == MustIgnore(h) \/ h.unit = "Bytes"
+MayIgnore(h)  == MustIgnore(h) \/ h.unit = "Bytes" \/ HasSpace(h)
 MayHonour(h)  == ~MustIgnore(h)
 
 (* Semantics: RFC 9110 14.1.2 *)
@@ -177,8 +183,8 @@ Wants(c, s, i) == CASE s.k = "ab"     -> s.a <= i /\ i <= s.b
                     [] s.k = "from"   -> s.a <= i
                     [] s.k = "suffix" -> i >= c.size - s.a
                     [] OTHER          -> FALSE
-Wanted(c) == {i \in 0..(c.size - 1) : \E j \in DOMAIN c.hdr.specs : Wants(c, c.hdr.specs[j], i)}
-WantCount(c, i) == Cardinality({j \in DOMAIN c.hdr.specs : Wants(c, c.hdr.specs[j], i)})
+Wanted(c) == {i \in 0..(c.size - 1) : \E j \in DOMAIN c.hdr.specs : Wants(c, Specs(c.hdr)[j], i)}
+WantCount(c, i) == Cardinality({j \in DOMAIN c.hdr.specs : Wants(c, Specs(c.hdr)[j], i)})
 (* positions delivered, decoded from runs (only meaningful while size <= mod) *)
 RunPos(run) == [k \in 1..run[2] |-> run[1] + k - 1]
 Flat(ss) == LET F[i \in 0..Len(ss)] == IF i = 0 THEN <<>> ELSE F[i - 1] \o ss[i] IN F[Len(ss)]
